@@ -7,6 +7,7 @@ os.makedirs(dst, exist_ok=True)
 for f in ("patch.diff", "demo_test.go"):
     shutil.copy(os.path.join(src, f), os.path.join(dst, f))
 meta = json.load(open(os.path.join(src, "meta.json")))
+meta["property"] = sid.split("-")[0]
 meta["confirmed_by_me"] = "tools/seedtest.sh: patch applies to /repo HEAD, go build + full go test pass with it, the demo test fails with it and passes without it (scratch worktree, removed afterwards)"
 meta["caught"] = caught
 meta["check_result"] = text
